@@ -10607,9 +10607,11 @@ impl<'a> Parser<'a> {
         let with_grant_option =
             self.parse_keywords(&[Keyword::WITH, Keyword::GRANT, Keyword::OPTION]);
 
-        let granted_by = self
-            .parse_keywords(&[Keyword::GRANTED, Keyword::BY])
-            .then(|| self.parse_identifier(false).unwrap());
+        let granted_by = if self.parse_keywords(&[Keyword::GRANTED, Keyword::BY]) {
+            Some(self.parse_identifier(false)?)
+        } else {
+            None
+        };
 
         Ok(Statement::Grant {
             privileges,
@@ -10735,9 +10737,11 @@ impl<'a> Parser<'a> {
         self.expect_keyword(Keyword::FROM)?;
         let grantees = self.parse_comma_separated(|p| p.parse_identifier(false))?;
 
-        let granted_by = self
-            .parse_keywords(&[Keyword::GRANTED, Keyword::BY])
-            .then(|| self.parse_identifier(false).unwrap());
+        let granted_by = if self.parse_keywords(&[Keyword::GRANTED, Keyword::BY]) {
+            Some(self.parse_identifier(false)?)
+        } else {
+            None
+        };
 
         let loc = self.peek_token().location;
         let cascade = self.parse_keyword(Keyword::CASCADE);
